@@ -113,7 +113,7 @@ class Harness:
       for pred in case.preds:
         script = comp.sql(pred)
         if script[0] != 'script':
-          self.add_viol('compile-%s/%s' % (script[1], case.family), 'valid program not compiled: %s %s | %s' % (script[1], script[2][:200], oneline(text)), case, dict(pred=pred))
+          self.add_viol(compile_sig(case, script), 'valid program not compiled: %s %s | %s' % (script[1], script[2][:200], oneline(text)), case, dict(pred=pred))
           continue
         for d in case.dbs:
           if prefilter and not prefilter(case, d): continue
@@ -146,7 +146,7 @@ class Harness:
       for pred in case.preds:
         script = comp.sql(pred)
         if script[0] != 'script':
-          self.add_viol('compile-%s/%s/facts' % (script[1], case.family), 'valid program not compiled: %s %s | %s' % (script[1], script[2][:200], oneline(prog2.text())), case2, dict(pred=pred))
+          self.add_viol(compile_sig(case, script, '/facts'), 'valid program not compiled: %s %s | %s' % (script[1], script[2][:200], oneline(prog2.text())), case2, dict(pred=pred))
           continue
         try:
           exp = self.expected(case, pred, d, prepared_rules)
@@ -178,6 +178,25 @@ class Harness:
 
   def close(self):
     for c in self.conns.values(): c.close()
+
+
+def in_list_mentions_own_element(body):
+  """some `v in [...]` conjunct (at any depth) whose list mentions v itself"""
+  for p in body:
+    t = p[0]
+    if t == 'in' and p[1][0] == 'v' and p[1][1] in lang.evars(p[2]): return True
+    if t == 'or' and any(in_list_mentions_own_element(b) for b in p[1]): return True
+    if t == 'not' and in_list_mentions_own_element(p[1]): return True
+    if t == 'imp' and (in_list_mentions_own_element(p[1]) or in_list_mentions_own_element(p[2])): return True
+    if t == 'aggeq' and in_list_mentions_own_element(p[4]): return True
+  return False
+
+
+def compile_sig(case, script, suffix=''):
+  """signature of a 'valid program not compiled' violation; the one recorded defect of this kind (finding F26) gets a narrow signature"""
+  if script[1] == 'RuleCompileException' and 'circular dependency of' in script[2] and any(in_list_mentions_own_element(r.body or ()) for r in case.program.rules()):
+    return 'F26-in-list-mentioning-its-own-element-ahead-of-the-binding-literal'
+  return 'compile-%s/%s%s' % (script[1], case.family, suffix)
 
 
 def oneline(text):
